@@ -810,9 +810,15 @@ class Phase(Angle):
                 return NotImplemented
 
             if phases[0].imaginary == phases[1].imaginary:
-                diff = (phases[0]["int"] - phases[1]["int"]) + (
-                    phases[0]["frac"] - phases[1]["frac"]
+                # The sign of the exact difference: fractions that are almost a whole
+                # cycle apart must not round onto the difference of the counts.
+                d_frac, err1 = two_sum(phases[0]["frac"].value, -phases[1]["frac"].value)
+                total, err2 = two_sum(
+                    phases[0]["int"].value - phases[1]["int"].value, d_frac
                 )
+                diff = np.where(total != 0, total, err1 + err2)
+                if self.imaginary:
+                    diff = diff.imag
                 return getattr(function, method)(diff, 0, **kwargs)
 
         elif (
